@@ -744,8 +744,81 @@ func c14RunCase(in0 interface{}) Result {
 	return c14RunOne(in)
 }
 
+// c14Live: one request through the real http.Transport to a loopback backend.
+func c14Live(in *c14In) Result {
+	entered := make(chan struct{}, 1)
+	release := make(chan struct{})
+	mode := in.Policy // s | e | c
+	backend := httptest.NewServer(http.HandlerFunc(func(w http.ResponseWriter, r *http.Request) {
+		entered <- struct{}{}
+		<-release
+		if mode == "e" {
+			if hj, ok := w.(http.Hijacker); ok {
+				if c, _, err := hj.Hijack(); err == nil {
+					c.Close()
+				}
+			}
+			return
+		}
+		w.WriteHeader(200)
+		io.WriteString(w, "ok")
+	}))
+	defer backend.Close()
+	var once sync.Once
+	unblock := func() { once.Do(func() { close(release) }) }
+	defer unblock()
+	text := fmt.Sprintf("proxy / %s {\n max_conns 5\n max_fails 1\n fail_timeout 1h\n}\n", backend.URL)
+	ups, err := proxy.NewStaticUpstreams(casketfile.NewDispenser("Testfile", strings.NewReader(text)), "")
+	if err != nil || len(ups) != 1 {
+		r := c14Skip(fmt.Sprint("setup error ", err), "live:setup-error")
+		r.Direct = fmt.Sprint("proxy block rejected: ", err)
+		return r
+	}
+	defer ups[0].Stop()
+	h := hostsOf(ups[0])[0]
+	p := proxy.Proxy{Next: handlerFunc(func(w http.ResponseWriter, r *http.Request) (int, error) { return 404, nil }), Upstreams: ups}
+	ctx, cancel := context.WithCancel(context.Background())
+	defer cancel()
+	req := httptest.NewRequest("GET", "http://example.test/x", nil).WithContext(ctx)
+	req.RemoteAddr = "192.0.2.7:4711"
+	done := make(chan int, 1)
+	go func() {
+		code := -1
+		defer func() {
+			recover()
+			done <- code
+		}()
+		code, _ = p.ServeHTTP(httptest.NewRecorder(), req)
+	}()
+	direct := ""
+	select {
+	case <-entered:
+	case <-time.After(5 * time.Second):
+		direct = "request never reached the backend"
+	}
+	during := atomic.LoadInt64(&h.Conns)
+	if mode == "c" {
+		cancel()
+	} else {
+		unblock()
+	}
+	code := -2
+	select {
+	case code = <-done:
+	case <-time.After(5 * time.Second):
+		direct = "Proxy.ServeHTTP did not return"
+	}
+	after, fails := atomic.LoadInt64(&h.Conns), int64(atomic.LoadInt32(&h.Fails))
+	return Result{Term: cApp("CLive", c14Outcome(mode), cZ(int64(code)), cZ(during), cZ(after), cZ(fails)),
+		Obs:    map[string]interface{}{"status": code, "conns_during": during, "conns_after": after, "fails_after": fails},
+		Direct: direct, Sig: "live:" + mode, Nontrivial: true, Class: "live:" + mode,
+		Key: fmt.Sprintf("live:%s:%d", mode, in.Seed)}
+}
+
 func c14RunOne(in *c14In) Result {
 	switch in.Kind {
+	case "live":
+		return c14Live(in)
 	case "sched":
 		var res Result
 		status := 0
@@ -927,6 +1000,10 @@ func c14Gen(r *Rand, tier string) []interface{} {
 			out = append(out, &c14In{Kind: "maxconns", N: n, K: k})
 		}
 	}
+	// 4b. the real transport: answered, connection dropped by the backend, abandoned by the client
+	for i := 0; i < nStress; i++ {
+		out = append(out, &c14In{Kind: "live", Policy: []string{"s", "e", "c"}[i%3], Seed: uint64(i)})
+	}
 	// 5. free-running stress
 	for i := 0; i < nStress; i++ {
 		out = append(out, &c14In{Kind: "stress", Hosts: r.Range(1, 3), MC: []int64{0, 0, 2, 4}[r.Intn(4)],
@@ -938,7 +1015,7 @@ func c14Gen(r *Rand, tier string) []interface{} {
 func init() {
 	register(&Property{
 		ID: "C14", Imports: "V.Lib V.C14_Model", Judge: "judge",
-		Rule: "cases = real Proxy.ServeHTTP goroutines over a parsed proxy block, stepped by the driver through gated Select / barrier transports (every interleaving of 2 requests x outcomes x settings, random schedules of up to 5 requests on up to 3 hosts, timed schedules with real fail_timeout expiry), max_fails/max_conns parsing, free-running stress; non-trivial = a schedule in which two requests were simultaneously between Select and completion or a failure was recorded / accepted config / stress run; distinct = distinct Coq case term",
+		Rule: "cases = real Proxy.ServeHTTP goroutines over a parsed proxy block, stepped by the driver through gated Select / barrier transports (every interleaving of 2 requests x outcomes x settings, random schedules of up to 5 requests on up to 3 hosts, timed schedules with real fail_timeout expiry), max_fails/max_conns parsing, single requests through the real http.Transport (answered / dropped / client cancel), free-running stress; non-trivial = a schedule in which two requests were simultaneously between Select and completion or a failure was recorded / accepted config / stress run; distinct = distinct Coq case term",
 		Gen:  c14Gen,
 		Decode: func(raw json.RawMessage) (interface{}, error) {
 			in := &c14In{}
